@@ -3,6 +3,7 @@ package props
 import (
 	"encoding/json"
 	"fmt"
+	"go/constant"
 	"go/token"
 	"go/types"
 	"os"
@@ -149,6 +150,55 @@ func registryInvariant(p *load.Prog, reg map[*ssa.Global]*types.Named) (ok bool,
 	return true, ""
 }
 
+// tokenPattern: the constant pattern compiled for the token kind with the given name in the initialiser of q.TokenRegexp.
+func tokenPattern(p *load.Prog, kind string) (string, bool) {
+	pkg := p.SSAPkg[load.PkgQ]
+	if pkg == nil {
+		return "", false
+	}
+	initFn := pkg.Func("init")
+	if initFn == nil {
+		return "", false
+	}
+	// stores of a MustCompile result and of the kind constant into fields of the same element
+	type elem struct {
+		pat  string
+		kind string
+	}
+	elems := map[ssa.Value]*elem{}
+	for _, b := range initFn.Blocks {
+		for _, ins := range b.Instrs {
+			st, ok := ins.(*ssa.Store)
+			if !ok {
+				continue
+			}
+			fa, ok := st.Addr.(*ssa.FieldAddr)
+			if !ok {
+				continue
+			}
+			e := elems[fa.X]
+			if e == nil {
+				e = &elem{}
+				elems[fa.X] = e
+			}
+			if c, ok := st.Val.(*ssa.Call); ok && su.CalleeIs(&c.Call, "regexp", "MustCompile") && len(c.Call.Args) == 1 {
+				if s, ok := su.ConstString(c.Call.Args[0]); ok {
+					e.pat = s
+				}
+			}
+			if s, ok := su.ConstString(st.Val); ok {
+				e.kind = s
+			}
+		}
+	}
+	for _, e := range elems {
+		if e.kind == kind && e.pat != "" {
+			return e.pat, true
+		}
+	}
+	return "", false
+}
+
 // fieldOfParam: v is field #i of a struct-typed parameter (directly, or through the parameter's local copy).
 func fieldOfParam(v ssa.Value) (*ssa.Parameter, int) {
 	switch x := v.(type) {
@@ -184,7 +234,86 @@ func fieldOfParam(v ssa.Value) (*ssa.Parameter, int) {
 }
 
 // tableSideConditions: table key -> check, on the current source, of the fact the reviewed reason relies on.
+// dateConstraintTable: every DateConstraint value that can exist is a valid index of the matcher table in Date.Equals.
+func dateConstraintTable(p *load.Prog) (bool, string) {
+	pkg := p.ByPath[load.PkgRoot]
+	tObj := pkg.Types.Scope().Lookup("DateConstraint")
+	eq := p.Method(load.PkgRoot, "Date", "Equals")
+	if tObj == nil || eq == nil {
+		return false, "DateConstraint / Date.Equals not found"
+	}
+	maxC := int64(-1)
+	for _, name := range pkg.Types.Scope().Names() {
+		c, ok := pkg.Types.Scope().Lookup(name).(*types.Const)
+		if !ok || !types.Identical(c.Type(), tObj.Type()) {
+			continue
+		}
+		if v, ok := constant.Int64Val(c.Val()); ok {
+			if v < 0 {
+				return false, "negative DateConstraint constant " + name
+			}
+			if v > maxC {
+				maxC = v
+			}
+		}
+	}
+	minDim := int64(-1)
+	for _, b := range eq.Blocks {
+		for _, ins := range b.Instrs {
+			al, ok := ins.(*ssa.Alloc)
+			if !ok {
+				continue
+			}
+			at, ok := al.Type().(*types.Pointer).Elem().Underlying().(*types.Array)
+			if !ok {
+				continue
+			}
+			if minDim < 0 || at.Len() < minDim {
+				minDim = at.Len()
+			}
+		}
+	}
+	if maxC < 0 || minDim < 0 {
+		return false, "cannot read the DateConstraint constants or the dimensions of the matcher table"
+	}
+	if maxC >= minDim {
+		return false, fmt.Sprintf("the largest DateConstraint constant is %d but the matcher table in Date.Equals has a dimension of %d: comparing a date with the new constraint indexes past the table", maxC, minDim)
+	}
+	// no DateConstraint is made from a computed integer
+	for _, fn := range p.Repo {
+		for _, b := range fn.Blocks {
+			for _, ins := range b.Instrs {
+				cv, ok := ins.(*ssa.Convert)
+				if !ok || !types.Identical(cv.Type(), tObj.Type()) {
+					continue
+				}
+				if _, isK := cv.X.(*ssa.Const); !isK {
+					return false, "a DateConstraint is converted from a computed integer in " + load.FuncName(fn)
+				}
+			}
+		}
+	}
+	return true, ""
+}
+
 var tableSideConditions = map[string]func(p *load.Prog) (bool, string){
+	"P3 index [][]func(d1 gedcom.Date, d2 gedcom.Date) bool in (gedcom.Date).Equals": dateConstraintTable,
+	"P3 index []func(d1 gedcom.Date, d2 gedcom.Date) bool in (gedcom.Date).Equals":   dateConstraintTable,
+	"P3 slice string in (*q.Parser).consumeConstant": func(p *load.Prog) (bool, string) {
+		// value[1 : len(value)-1] needs two bytes: the pattern of the string token must not match anything shorter
+		pat, ok := tokenPattern(p, "string")
+		if !ok {
+			return false, "cannot find the pattern registered for the string token in q.TokenRegexp"
+		}
+		n, err := relang.MinLenOf(pat)
+		if err != nil {
+			return false, "cannot parse the string token's pattern " + pat
+		}
+		if n < 2 {
+			return false, fmt.Sprintf("the pattern of the string token (%s) matches a text of %d byte(s): a token that is only an opening quote reaches the slice value[1:len-1] with len 1, and ParseString has no recover", pat, n)
+		}
+		return true, ""
+	},
 	"P1 panic in gedcom.needsFamily": func(p *load.Prog) (bool, string) {
 		// (1) the family-role constructors are only called behind needsFamily or with the receiver's family
 		// (2) DeepCopy's callback takes the family of a family-role node from the node itself when no FAM node is above it
@@ -192,6 +321,10 @@ var tableSideConditions = map[string]func(p *load.Prog) (bool, string){
 		sc := p.Func(load.PkgRoot, "shallowCopyNode")
 		if dc == nil || sc == nil {
 			return false, "DeepCopy / shallowCopyNode not found"
+		}
+		// (0) in the decoder the panic is turned into an error: parseLine installs a deferred function that itself calls recover()
+		if pl := p.Func(load.PkgRoot, "parseLine"); pl == nil || e1.Recovers(pl) == nil {
+			return false, "parseLine no longer recovers: its deferred function does not call recover() itself (recover only stops a panic when the deferred function calls it directly), so a HUSB/WIFE/CHIL line before any FAM record panics out of Decode"
 		}
 		found := false
 		for _, an := range dc.AnonFuncs {
